@@ -20,6 +20,11 @@ type C05Step struct {
 	End      string `json:"end,omitempty"`      // commit rollback failcommit
 	FailAt   int    `json:"fail_at,omitempty"`  // failcommit: index of the first failing mutating request
 	NullKey  bool   `json:"null_key,omitempty"` // add an INSERT with a NULL key (must fail) in the middle
+	// Second > 0: after statement number Second (1-based) the transaction also inserts a row
+	// into a second s3db table of the same connection (its first write there: the table joins
+	// the running transaction). Not combined with a failing COMMIT (atomicity across tables is
+	// not part of the property).
+	Second int `json:"second,omitempty"`
 }
 
 type C05Case struct {
@@ -59,6 +64,9 @@ func genC05Case(t *rapid.T) C05Case {
 				NullKey: rapid.IntRange(0, 5).Draw(t, "nullkey") == 0}
 			k := rapid.IntRange(0, 5).Draw(t, "nstmts")
 			used := map[string]bool{}
+			if k > 0 && st.End != "failcommit" && rapid.IntRange(0, 2).Draw(t, "second") == 0 {
+				st.Second = rapid.IntRange(1, k).Draw(t, "secondat")
+			}
 			for j := 0; j < k; j++ {
 				var s Stmt
 				// (with one write time for the whole transaction several statements may well
@@ -109,6 +117,32 @@ func runC05(c C05Case, o *Obs) error {
 	ospec.Name, ospec.Client, ospec.ReadOnly = on, "obs", true
 	if err := obs.Create(ospec); err != nil {
 		return err
+	}
+	// a second s3db table on the writer's connection (own prefix), for transactions that span two tables
+	t2 := ""
+	t2Committed := map[int64]bool{}
+	t2Next := int64(0)
+	for _, st := range c.Steps {
+		if st.Second > 0 && t2 == "" {
+			t2 = uniqName("t2")
+			sp2 := TableSpec{Name: t2, Columns: "k primary key, a", Bucket: bucket, Client: "w", Prefix: "second"}
+			if err := conn.Create(sp2); err != nil {
+				return fmt.Errorf("create second table: %v", err)
+			}
+		}
+	}
+	t2Rows := func() (map[int64]bool, error) {
+		rows, err := conn.Query("select k from " + t2)
+		if err != nil {
+			return nil, err
+		}
+		m := map[int64]bool{}
+		for _, r := range rows {
+			var k int64
+			fmt.Sscanf(r[0], "I:%d", &k)
+			m[k] = true
+		}
+		return m, nil
 	}
 	view := MSet{}      // the writer's state (incl. uncommitted)
 	committed := MSet{} // what has been committed
@@ -265,6 +299,13 @@ func runC05(c C05Case, o *Obs) error {
 				return fmt.Errorf("%s: begin: %v", where, err)
 			}
 			effective := 0
+			t2Key := int64(0)
+			var t2Pre []GoEntry
+			if st.Second > 0 && t2 != "" {
+				if t2Pre, err = goDump(t2); err != nil {
+					return err
+				}
+			}
 			for j, s := range st.Stmts {
 				if !s.wellFormed() {
 					continue
@@ -296,6 +337,14 @@ func runC05(c C05Case, o *Obs) error {
 				// (i) reads its own writes
 				if err := checkRows(fmt.Sprintf("%s after stmt %d (inside the transaction)", where, j)); err != nil {
 					return err
+				}
+				if st.Second == j+1 && st.End != "failcommit" && t2 != "" {
+					t2Next++
+					t2Key = t2Next
+					if err := conn.Exec("insert into "+t2+"(k,a) values (?,?)", t2Key, 1); err != nil {
+						return fmt.Errorf("%s: INSERT into the second table inside the transaction: %v", where, err)
+					}
+					o.Class("txn-spans-two-tables")
 				}
 			}
 			// (iii) nothing leaks before COMMIT
@@ -360,7 +409,14 @@ func runC05(c C05Case, o *Obs) error {
 				if err != nil {
 					return err
 				}
-				if err := checkTxnTimes(preGo, postGo, st.Implicit, baseTime, where); err != nil {
+				var t2Post []GoEntry
+				if t2Key != 0 {
+					t2Committed[t2Key] = true
+					if t2Post, err = goDump(t2); err != nil {
+						return err
+					}
+				}
+				if err := checkTxnTimes(append(append([]GoEntry{}, preGo...), tagEntries(t2Pre)...), append(append([]GoEntry{}, postGo...), tagEntries(t2Post)...), st.Implicit, baseTime, where); err != nil {
 					return err
 				}
 				if effective >= 1 {
@@ -396,6 +452,20 @@ func runC05(c C05Case, o *Obs) error {
 				if effective >= 2 && height >= 1 {
 					o.NonTrivial = true
 					o.Class("rollback-after>=2-effective-height>=1")
+				}
+			}
+			if t2 != "" {
+				got, err := t2Rows()
+				if err != nil {
+					return fmt.Errorf("%s: scan of the second table: %v", where, err)
+				}
+				if len(got) != len(t2Committed) {
+					return fmt.Errorf("%s (%s): the second table holds keys %v, committed were %v", where, end, got, t2Committed)
+				}
+				for k := range t2Committed {
+					if !got[k] {
+						return fmt.Errorf("%s (%s): the second table holds keys %v, committed were %v", where, end, got, t2Committed)
+					}
 				}
 			}
 			// the connection's write_time attribute is back to what it was
@@ -463,6 +533,16 @@ func checkTxnTimes(pre, post []GoEntry, implicit bool, base int64, where string)
 		return fmt.Errorf("%s: the writes of one transaction without explicit write_time carry %d different write times: %v", where, len(own), own)
 	}
 	return nil
+}
+
+// tagEntries renames the keys of a second table's entries so that they cannot collide with the first table's.
+func tagEntries(es []GoEntry) []GoEntry {
+	out := make([]GoEntry, 0, len(es))
+	for _, e := range es {
+		e.Key = "t2/" + e.Key
+		out = append(out, e)
+	}
+	return out
 }
 
 func init() { register("TestC05_Txn", runC05) }
